@@ -49,6 +49,14 @@ def call(kind, c, t, v=0, oneway=False, more=False, shuffle=None, s="", raw_utf8
     return json.dumps(dict(items), separators=(",", ":"), ensure_ascii=not raw_utf8).encode()
 
 
+# io::ErrorKind values a transport write can fail with (None = zlink's own Error::SocketWrite)
+IO_KINDS = [None, "Interrupted", "WouldBlock", "TimedOut", "BrokenPipe", "ConnectionReset", "UnexpectedEof", "Other"]
+
+
+def fw(c, k, kind=None):
+    return ["fw", c, k] + ([kind] if kind else [])
+
+
 FLAG = [False, True, "false"]
 # every combination of the three flags (absent / true / written-out false): 27
 FLAG_COMBOS = [(o, m, u) for o in FLAG for m in FLAG for u in FLAG]
@@ -333,6 +341,16 @@ def run_cases(ck, cases, step, limit, per_shard=60):
                           "without_logging": pretty_trace(r0) if "polls" in r0 else r0,
                           "script": script_summary(c["script"])}, tag="log%d" % c["id"])
     ck.cov["runs_with_and_without_logging_compared"] = len(cases)
+    # every write call carries exactly one message: one terminator, at the end (nothing is sent twice or torn)
+    n_fr = 0
+    for c, r in zip(cases, results):
+        bad = [e for p in r.get("polls", []) for e in p["tr"] if e[0] == 3 and (e[-1] != 0 or e[2:].count(0) != 1)]
+        if bad and n_fr < 5:
+            n_fr += 1
+            ck.violation("a write on connection %d carries %d terminators (a reply or stream item was sent twice, "
+                         "torn or merged): %r [%s]" % (bad[0][1], bad[0][2:].count(0), bytes(bad[0][2:])[:160], c.get("tag", "")),
+                         {"case": c, "impl_trace": pretty_trace(r), "script": script_summary(c["script"])},
+                         tag="frame%d" % c["id"])
     # the server must not go to sleep while something it could act on is immediately available
     n_sleep = 0
     for c, r in zip(cases, results):
